@@ -1145,14 +1145,14 @@ theorem find_eq_lookup (bases : Nat → List Nat) (hA : Acyclic1 bases) (ext : N
 /-- **docsource_eq_getdoc**: for a member `name` of an accepted, documented class `c`, the
 docstring source `get_docstring` picks (own docstring, else the first inherited definition along
 `mro()` that has one) is the one attribute lookup along Python's `__mro__` yields. -/
-theorem docsource_eq_getdoc (bases : Nat → List Nat) (hA : Acyclic1 bases) (ext : Nat → Bool)
+theorem docsource_same_owns (bases : Nat → List Nat) (hA : Acyclic1 bases) (ext : Nat → Bool)
     (owns hasDoc : Nat → Nat → Bool) (c name : Nat) (hc : 0 < c) (l : List Nat)
     (hacc : mro bases c = some l) (hcext : ext c = false)
     (hext : ∀ x, ext x = true → owns x name = false) (hobj : owns 0 name = false) :
-    getDocstring bases ext owns hasDoc c name
+    getDocstringOld bases ext owns hasDoc c name
       = PyMro.docSource (PyMro.withObject bases) owns hasDoc c name := by
   obtain ⟨t, rfl, _⟩ := mroFuel_head_tail bases hA.acyclic _ c l hacc
-  simp only [getDocstring, docsources, classMro, PyMro.docSource, pd_eq_cpython bases hA c hc,
+  simp only [getDocstringOld, docsourcesOld, classMro, PyMro.docSource, pd_eq_cpython bases hA c hc,
     hacc, initMro, Option.map_some, Bool.false_eq_true, if_false, List.filter_cons, hcext,
     Bool.not_false, if_true, List.drop_succ_cons, List.drop_zero, List.cons_append,
     List.find?_cons]
@@ -1195,7 +1195,7 @@ example : PyMro.hasDup (exDup 2) = true ∧ mro exDup 2 = none ∧ PyMro.mro (Py
 example : Anc exBases 1 4 := Anc.step (b := 2) (by decide) (Anc.step (b := 1) (by decide) (Anc.refl 1))
 -- member 0 defined in 1 (with docstring), 3 (without) and 4 (without): 4.find = 4, docstring from 1
 example : find exBases (fun _ => false) (fun c _ => c == 1 || c == 3 || c == 4) 4 0 = some 4
-    ∧ getDocstring exBases (fun _ => false) (fun c _ => c == 1 || c == 3 || c == 4) (fun c _ => c == 1) 4 0 = some 1
+    ∧ getDocstring exBases (fun _ => false) (fun _ => false) (fun c _ => c == 1 || c == 3 || c == 4) (fun c _ => c == 1) 4 0 = some 1
     ∧ PyMro.docSource (PyMro.withObject exBases) (fun c _ => c == 1 || c == 3 || c == 4) (fun c _ => c == 1) 4 0 = some 1 := by
   decide
 
@@ -1208,7 +1208,7 @@ theorem getdoc_is_not_the_mro_walk :
     let owns := fun (c _ : Nat) => c == 1 || c == 3 || c == 4
     let hasDoc := fun (c _ : Nat) => c == 1 || c == 3
     PyMro.docSource (PyMro.withObject exBases) owns hasDoc 4 0 = some 3
-    ∧ getDocstring exBases (fun _ => false) owns hasDoc 4 0 = some 3
+    ∧ getDocstring exBases (fun _ => false) (fun _ => false) owns hasDoc 4 0 = some 3
     ∧ PyMro.inspectGetdoc (PyMro.withObject exBases) owns hasDoc 4 0 = some 1 := by
   decide
 
@@ -1461,13 +1461,13 @@ theorem findDunderConstructor_eq_lookup (bases : Nat → List Nat) (hA : Acyclic
     find_eq_lookup bases hA ext owns c initN hc l hacc (fun x => hext x initN) (hobj initN)]
 
 /-- **overrides_eq_super**: the member shown as "overrides …" is the one `super()` reaches. -/
-theorem overrides_eq_super (bases : Nat → List Nat) (hA : Acyclic1 bases) (ext : Nat → Bool)
+theorem overrides_same_owns (bases : Nat → List Nat) (hA : Acyclic1 bases) (ext : Nat → Bool)
     (owns : Nat → Nat → Bool) (c name : Nat) (hc : 0 < c) (l : List Nat)
     (hacc : mro bases c = some l) (hcext : ext c = false)
     (hext : ∀ x, ext x = true → owns x name = false) (hobj : owns 0 name = false) :
-    overrides bases ext owns c name = PyMro.superLookup (PyMro.withObject bases) owns c name := by
+    overridesOld bases ext owns c name = PyMro.superLookup (PyMro.withObject bases) owns c name := by
   obtain ⟨t, rfl, _⟩ := mroFuel_head_tail bases hA.acyclic _ c l hacc
-  simp only [overrides, PyMro.superLookup, classMro_accept bases ext c _ hacc,
+  simp only [overridesOld, PyMro.superLookup, classMro_accept bases ext c _ hacc,
     pd_eq_cpython bases hA c hc, hacc, Option.map_some, Bool.false_eq_true, if_false,
     List.filter_cons, hcext, Bool.not_false, if_true, List.drop_succ_cons, List.drop_zero,
     List.cons_append]
@@ -1676,23 +1676,29 @@ theorem findEarly_diamond_counterexample :
 
 /-! ### the "inherited from" tables of a class page -/
 
-theorem mem_unmaskedAttrs (contents : Nat → List Nat) (visible : Nat → Nat → Bool) (b : Nat)
-    (rest : List Nat) (b' n : Nat) :
-    (b', n) ∈ unmaskedAttrs contents visible b rest ↔
-      b' = b ∧ n ∈ contents b ∧ visible b n = true ∧ ∀ r ∈ rest, n ∉ contents r := by
+/-- class `r` masks name `n`: it has `n` among its contents and `n` is not class-private -/
+def Masks (contents : Nat → List Nat) (priv : Nat → Bool) (n r : Nat) : Prop :=
+  n ∈ contents r ∧ priv n = false
+
+theorem mem_unmaskedAttrs (contents : Nat → List Nat) (visible : Nat → Nat → Bool) (priv : Nat → Bool)
+    (b : Nat) (rest : List Nat) (b' n : Nat) :
+    (b', n) ∈ unmaskedAttrs contents visible priv b rest ↔
+      b' = b ∧ n ∈ contents b ∧ visible b n = true ∧ ∀ r ∈ rest, ¬ Masks contents priv n r := by
   simp only [unmaskedAttrs, List.mem_map, List.mem_filter, Bool.and_eq_true, Bool.not_eq_true',
-    List.any_eq_false, List.contains_iff_mem, Prod.mk.injEq]
+    List.any_eq_false, List.contains_iff_mem, Prod.mk.injEq, Masks]
   constructor
   · rintro ⟨a, ⟨ha, hv, hr⟩, rfl, rfl⟩
     exact ⟨rfl, ha, hv, fun r hr' => by simpa using hr r hr'⟩
   · rintro ⟨rfl, ha, hv, hr⟩
     exact ⟨n, ⟨ha, hv, fun r hr' => by simpa using hr r hr'⟩, rfl, rfl⟩
 
-theorem mem_chains_unmasked (contents : Nat → List Nat) (visible : Nat → Nat → Bool) (b n : Nat) :
+theorem mem_chains_unmasked (contents : Nat → List Nat) (visible : Nat → Nat → Bool) (priv : Nat → Bool)
+    (b n : Nat) :
     ∀ (xs acc : List Nat),
-      (∃ p ∈ chains acc xs, p.2 ≠ [] ∧ (b, n) ∈ unmaskedAttrs contents visible p.1 p.2) ↔
+      (∃ p ∈ chains acc xs, p.2 ≠ [] ∧ (b, n) ∈ unmaskedAttrs contents visible priv p.1 p.2) ↔
       ∃ as bs, xs = as ++ b :: bs ∧ n ∈ contents b ∧ visible b n = true ∧
-        (∀ r ∈ acc, n ∉ contents r) ∧ (∀ r ∈ as, n ∉ contents r) ∧ (acc ≠ [] ∨ as ≠ []) := by
+        (∀ r ∈ acc, ¬ Masks contents priv n r) ∧ (∀ r ∈ as, ¬ Masks contents priv n r) ∧
+        (acc ≠ [] ∨ as ≠ []) := by
   intro xs
   induction xs with
   | nil => intro acc; simp [chains]
@@ -1702,7 +1708,7 @@ theorem mem_chains_unmasked (contents : Nat → List Nat) (visible : Nat → Nat
     · rintro ⟨p, hp, hne, hmem⟩
       simp only [chains, List.mem_cons] at hp
       rcases hp with rfl | hp
-      · obtain ⟨rfl, hc, hv, hr⟩ := (mem_unmaskedAttrs _ _ _ _ _ _).1 hmem
+      · obtain ⟨rfl, hc, hv, hr⟩ := (mem_unmaskedAttrs _ _ _ _ _ _ _).1 hmem
         exact ⟨[], xs, rfl, hc, hv, hr, by simp, Or.inl hne⟩
       · obtain ⟨as, bs, rfl, hc, hv, hacc, has, _⟩ := (ih (x :: acc)).1 ⟨p, hp, hne, hmem⟩
         refine ⟨x :: as, bs, rfl, hc, hv, fun r hr => hacc r (List.mem_cons_of_mem _ hr), ?_, Or.inr (by simp)⟩
@@ -1716,7 +1722,7 @@ theorem mem_chains_unmasked (contents : Nat → List Nat) (visible : Nat → Nat
         simp only [List.nil_append, List.cons.injEq] at hxs
         obtain ⟨rfl, rfl⟩ := hxs
         have hacc' : acc ≠ [] := by rcases hne with h | h; exact h; exact absurd rfl h
-        exact ⟨(x, acc), by simp [chains], hacc', (mem_unmaskedAttrs _ _ _ _ _ _).2 ⟨rfl, hc, hv, hacc⟩⟩
+        exact ⟨(x, acc), by simp [chains], hacc', (mem_unmaskedAttrs _ _ _ _ _ _ _).2 ⟨rfl, hc, hv, hacc⟩⟩
       | cons a as =>
         simp only [List.cons_append, List.cons.injEq] at hxs
         obtain ⟨rfl, rfl⟩ := hxs
@@ -1728,10 +1734,10 @@ theorem mem_chains_unmasked (contents : Nat → List Nat) (visible : Nat → Nat
           · exact has _ (List.mem_cons_self ..)
           · exact hacc r hr
 
-theorem mem_inheritedMembers (contents : Nat → List Nat) (visible : Nat → Nat → Bool) (m : List Nat)
-    (b n : Nat) :
-    (b, n) ∈ inheritedMembers contents visible m ↔
-      ∃ p ∈ chains [] m, p.2 ≠ [] ∧ (b, n) ∈ unmaskedAttrs contents visible p.1 p.2 := by
+theorem mem_inheritedMembers (contents : Nat → List Nat) (visible : Nat → Nat → Bool) (priv : Nat → Bool)
+    (m : List Nat) (b n : Nat) :
+    (b, n) ∈ inheritedMembers contents visible priv m ↔
+      ∃ p ∈ chains [] m, p.2 ≠ [] ∧ (b, n) ∈ unmaskedAttrs contents visible priv p.1 p.2 := by
   simp only [inheritedMembers, classMembers, nestedBases, List.mem_flatMap, List.mem_filter,
     List.mem_map]
   constructor
@@ -1739,26 +1745,29 @@ theorem mem_inheritedMembers (contents : Nat → List Nat) (visible : Nat → Na
     refine ⟨p, hp, ?_, hmem⟩
     intro h; simp [h] at hlen
   · rintro ⟨p, hp, hne, hmem⟩
-    refine ⟨(p, unmaskedAttrs contents visible p.1 p.2), ⟨⟨⟨p, hp, rfl⟩, ?_⟩, ?_⟩, hmem⟩
-    · cases h : unmaskedAttrs contents visible p.1 p.2 with
+    refine ⟨(p, unmaskedAttrs contents visible priv p.1 p.2), ⟨⟨⟨p, hp, rfl⟩, ?_⟩, ?_⟩, hmem⟩
+    · cases h : unmaskedAttrs contents visible priv p.1 p.2 with
       | nil => rw [h] at hmem; simp at hmem
       | cons => simp
     · cases h : p.2 with
       | nil => exact absurd h hne
       | cons => simp
 
-/-- **inherited_members_iff**: over a duplicate-free linearisation `m`, member `n` is listed as
-inherited from `b` exactly when `b` is the first class of `m` that has `n` among its contents,
-`b` is not the class itself (the head of `m`) and the member is visible: when several bases define
-the name, the first one in MRO order is shown, as attribute lookup would find it. -/
-theorem inherited_members_iff (contents : Nat → List Nat) (visible : Nat → Nat → Bool)
-    (m : List Nat) (hn : m.Nodup) (b n : Nat) :
-    (b, n) ∈ inheritedMembers contents visible m ↔
+/-- **inherited_members_iff**: over a duplicate-free linearisation `m`, a member `n` that is not
+class-private is listed as inherited from `b` exactly when `b` is the first class of `m` that has
+`n` among its contents, `b` is not the class itself (the head of `m`) and the member is visible:
+when several bases define the name, the first one in MRO order is shown, as attribute lookup would
+find it. -/
+theorem inherited_members_iff (contents : Nat → List Nat) (visible : Nat → Nat → Bool) (priv : Nat → Bool)
+    (m : List Nat) (hn : m.Nodup) (b n : Nat) (hpub : priv n = false) :
+    (b, n) ∈ inheritedMembers contents visible priv m ↔
       m.find? (fun x => (contents x).contains n) = some b ∧ visible b n = true ∧ m.head? ≠ some b := by
   rw [mem_inheritedMembers, mem_chains_unmasked, List.find?_eq_some_iff_append]
+  have hM : ∀ r, ¬ Masks contents priv n r ↔ n ∉ contents r := by
+    intro r; simp [Masks, hpub]
   constructor
   · rintro ⟨as, bs, rfl, hc, hv, _, has, hne⟩
-    refine ⟨⟨by simpa using hc, as, bs, rfl, fun a ha => by simpa using has a ha⟩, hv, ?_⟩
+    refine ⟨⟨by simpa using hc, as, bs, rfl, fun a ha => by simpa using (hM a).1 (has a ha)⟩, hv, ?_⟩
     cases as with
     | nil => simp at hne
     | cons a as =>
@@ -1767,21 +1776,45 @@ theorem inherited_members_iff (contents : Nat → List Nat) (visible : Nat → N
       have := List.nodup_cons.1 hn
       exact this.1 (by simp)
   · rintro ⟨⟨hc, as, bs, rfl, has⟩, hv, hh⟩
-    refine ⟨as, bs, rfl, by simpa using hc, hv, by simp, fun a ha => by simpa using has a ha, Or.inr ?_⟩
+    refine ⟨as, bs, rfl, by simpa using hc, hv, by simp,
+      fun a ha => (hM a).2 (by simpa using has a ha), Or.inr ?_⟩
     intro e; subst e; simp at hh
 
-/-- **inherited_attribution**: for a class Python accepts, the class page lists `n` as inherited
-from `b` iff `Class.find(n)` (= attribute lookup, `find_eq_lookup`) yields `b`'s member, `b` is not
-the class itself and the member is visible. -/
+/-- **inherited_private_iff**: a class-private member `n` (`__x`) of *every* class after the head of
+`m` that has it is listed as inherited — nothing masks it, because `_b__x` is an attribute of its
+own in every class `b`. -/
+theorem inherited_private_iff (contents : Nat → List Nat) (visible : Nat → Nat → Bool) (priv : Nat → Bool)
+    (m : List Nat) (b n : Nat) (hpriv : priv n = true) :
+    (b, n) ∈ inheritedMembers contents visible priv m ↔
+      b ∈ m.drop 1 ∧ n ∈ contents b ∧ visible b n = true := by
+  rw [mem_inheritedMembers, mem_chains_unmasked]
+  have hM : ∀ r, ¬ Masks contents priv n r := by intro r; simp [Masks, hpriv]
+  constructor
+  · rintro ⟨as, bs, rfl, hc, hv, _, _, hne⟩
+    refine ⟨?_, hc, hv⟩
+    cases as with
+    | nil => simp at hne
+    | cons a as => simp
+  · rintro ⟨hb, hc, hv⟩
+    cases m with
+    | nil => simp at hb
+    | cons h t =>
+      simp only [List.drop_succ_cons, List.drop_zero] at hb
+      obtain ⟨as, bs, rfl⟩ := List.append_of_mem hb
+      exact ⟨h :: as, bs, by simp, hc, hv, fun r _ => hM r, fun r _ => hM r, Or.inr (by simp)⟩
+
+/-- **inherited_attribution**: for a class Python accepts, the class page lists a member `n` that is
+not class-private as inherited from `b` iff `Class.find(n)` (= attribute lookup, `find_eq_lookup`)
+yields `b`'s member, `b` is not the class itself and the member is visible. -/
 theorem inherited_attribution (bases : Nat → List Nat) (hA : Acyclic bases) (ext : Nat → Bool)
-    (contents : Nat → List Nat) (visible : Nat → Nat → Bool) (c : Nat) (l : List Nat)
-    (hacc : mro bases c = some l) (hcext : ext c = false) (b n : Nat) :
-    (b, n) ∈ inheritedMembers contents visible (classMro bases ext c) ↔
+    (contents : Nat → List Nat) (visible : Nat → Nat → Bool) (priv : Nat → Bool) (c : Nat) (l : List Nat)
+    (hacc : mro bases c = some l) (hcext : ext c = false) (b n : Nat) (hpub : priv n = false) :
+    (b, n) ∈ inheritedMembers contents visible priv (classMro bases ext c) ↔
       find bases ext (fun x k => (contents x).contains k) c n = some b ∧ visible b n = true ∧ b ≠ c := by
   have hnd : (classMro bases ext c).Nodup := by
     rw [classMro_accept bases ext c l hacc]
     exact (mro_nodup bases hA c l hacc).filter _
-  rw [inherited_members_iff contents visible _ hnd, find]
+  rw [inherited_members_iff contents visible priv _ hnd b n hpub, find]
   obtain ⟨t, rfl, _⟩ := mroFuel_head_tail bases hA _ c l hacc
   have hh : (classMro bases ext c).head? = some c := by
     simp [classMro_accept bases ext c _ hacc, List.filter_cons, hcext]
@@ -1793,10 +1826,8 @@ theorem inherited_attribution (bases : Nat → List Nat) (hA : Acyclic bases) (e
 /-! ## 12. Class-private names (`__name`)
 
 Python mangles an identifier `__x` used in the body of class `c` to `_c__x`: seen from `c`, only `c`
-itself can define that attribute.  pydoctor relates members of different classes by their unmangled
-name.  Full statement (false of the code): for every `name`, class-private ones included,
-`getDocstring … owns … c name = PyMro.docSource … (mangledOwns priv owns c) … c name` and
-`overrides … owns … c name = PyMro.superLookup … (mangledOwns priv owns c) c name`. -/
+itself can define that attribute.  Since commit d869973 pydoctor no longer relates such members
+across classes, and the two statements below hold for every name. -/
 
 /-- which classes define the attribute that the spelling `n` denotes in the body of class `c` -/
 def mangledOwns (priv : Nat → Bool) (owns : Nat → Nat → Bool) (c : Nat) : Nat → Nat → Bool :=
@@ -1806,38 +1837,84 @@ theorem mangledOwns_public (priv : Nat → Bool) (owns : Nat → Nat → Bool) (
     (h : priv name = false) : (fun b => mangledOwns priv owns c b name) = fun b => owns b name := by
   funext b; simp [mangledOwns, h]
 
-/-- **docsource_eq_getdoc_partial**: for a name Python does not mangle, the docstring source and
-the "overrides" member are those of attribute lookup, also when mangling is taken into account.
-Excluded: class-private names (`docsource_private_name_counterexample`). -/
-theorem docsource_eq_getdoc_partial (bases : Nat → List Nat) (hA : Acyclic1 bases) (ext priv : Nat → Bool)
+theorem find?_tail_private (priv : Nat → Bool) (owns : Nat → Nat → Bool) (c name : Nat)
+    (hp : priv name = true) (q : Nat → Bool) (t : List Nat) (ht : ∀ x ∈ t, x < c) :
+    t.find? (fun b => mangledOwns priv owns c b name && q b) = none := by
+  apply List.find?_eq_none.2
+  intro x hx
+  have : x ≠ c := Nat.ne_of_lt (ht x hx)
+  simp [mangledOwns, hp, this]
+
+/-- **docsource_eq_getdoc**: for a member `name` of an accepted, documented class `c` — class-private
+names included, Python's mangling taken into account — the docstring source `get_docstring` picks is
+the one attribute lookup along Python's `__mro__` yields. -/
+theorem docsource_eq_getdoc (bases : Nat → List Nat) (hA : Acyclic1 bases) (ext priv : Nat → Bool)
     (owns hasDoc : Nat → Nat → Bool) (c name : Nat) (hc : 0 < c) (l : List Nat)
     (hacc : mro bases c = some l) (hcext : ext c = false)
-    (hext : ∀ x, ext x = true → owns x name = false) (hobj : owns 0 name = false)
-    (hpub : priv name = false) :
-    getDocstring bases ext owns hasDoc c name
-        = PyMro.docSource (PyMro.withObject bases) (mangledOwns priv owns c) hasDoc c name
-    ∧ overrides bases ext owns c name
-        = PyMro.superLookup (PyMro.withObject bases) (mangledOwns priv owns c) c name := by
-  have hm := mangledOwns_public priv owns c name hpub
-  constructor
-  · rw [docsource_eq_getdoc bases hA ext owns hasDoc c name hc l hacc hcext hext hobj]
+    (hext : ∀ x, ext x = true → owns x name = false) (hobj : owns 0 name = false) :
+    getDocstring bases ext priv owns hasDoc c name
+      = PyMro.docSource (PyMro.withObject bases) (mangledOwns priv owns c) hasDoc c name := by
+  cases hp : priv name with
+  | false =>
+    have hm := mangledOwns_public priv owns c name hp
+    have hold := docsource_same_owns bases hA ext owns hasDoc c name hc l hacc hcext hext hobj
+    simp only [getDocstring, docsources, hp, Bool.false_eq_true, if_false]
+    have h1 : getDocstringOld bases ext owns hasDoc c name
+        = (docsourcesOld bases ext owns c name).find? (fun b => hasDoc b name) := rfl
+    rw [← h1, hold]
     simp only [PyMro.docSource]
     have : (fun b => mangledOwns priv owns c b name && hasDoc b name) = fun b => owns b name && hasDoc b name := by
       funext b; rw [congrFun hm b]
     simp only [this]
-  · rw [overrides_eq_super bases hA ext owns c name hc l hacc hcext hext hobj]
-    simp only [PyMro.superLookup, hm]
+  | true =>
+    obtain ⟨t, rfl, ht⟩ := mroFuel_head_tail bases hA.acyclic _ c l hacc
+    simp only [getDocstring, docsources, hp, if_true, List.find?_cons, List.find?_nil, PyMro.docSource,
+      pd_eq_cpython bases hA c hc, hacc, Option.map_some, List.cons_append, List.drop_succ_cons, List.drop_zero]
+    cases hd : hasDoc c name with
+    | true => simp
+    | false =>
+      simp only [Bool.false_eq_true, if_false]
+      rw [List.find?_append, find?_tail_private priv owns c name hp _ t ht]
+      simp [mangledOwns, hp]
+      intro e; omega
 
-/-- 1 defines `__x` (name 7) with a docstring, 2(1) defines `__x` without: pydoctor lets 2's member
-inherit 1's docstring and says it overrides 1's; for Python `_2__x` has no docstring to inherit and
-overrides nothing (`_1__x` is another attribute). -/
+/-- **overrides_eq_super**: the member shown as "overrides …" is the one `super()` reaches — for a
+class-private name nothing, as `_c__x` exists in no other class. -/
+theorem overrides_eq_super (bases : Nat → List Nat) (hA : Acyclic1 bases) (ext priv : Nat → Bool)
+    (owns : Nat → Nat → Bool) (c name : Nat) (hc : 0 < c) (l : List Nat)
+    (hacc : mro bases c = some l) (hcext : ext c = false)
+    (hext : ∀ x, ext x = true → owns x name = false) (hobj : owns 0 name = false) :
+    overrides bases ext priv owns c name
+      = PyMro.superLookup (PyMro.withObject bases) (mangledOwns priv owns c) c name := by
+  cases hp : priv name with
+  | false =>
+    have hm := mangledOwns_public priv owns c name hp
+    simp only [overrides, hp, Bool.false_eq_true, if_false]
+    rw [overrides_same_owns bases hA ext owns c name hc l hacc hcext hext hobj]
+    simp only [PyMro.superLookup, hm]
+  | true =>
+    obtain ⟨t, rfl, ht⟩ := mroFuel_head_tail bases hA.acyclic _ c l hacc
+    simp only [overrides, hp, if_true, PyMro.superLookup, pd_eq_cpython bases hA c hc, hacc,
+      Option.map_some, List.cons_append, List.drop_succ_cons, List.drop_zero]
+    rw [List.find?_append]
+    have := find?_tail_private priv owns c name hp (fun _ => true) t ht
+    simp only [Bool.and_true] at this
+    rw [this]
+    simp [mangledOwns, hp]
+    intro e; omega
+
+/-- Historical (code before commit d869973): 1 defines `__x` (name 7) with a docstring, 2(1) defines
+`__x` without: pydoctor let 2's member inherit 1's docstring and said it overrides 1's; for Python
+`_2__x` has no docstring to inherit and overrides nothing.  The current code agrees with Python. -/
 theorem docsource_private_name_counterexample :
     let owns := fun (c n : Nat) => n == 7 && (c == 1 || c == 2)
     let hasDoc := fun (c n : Nat) => n == 7 && c == 1
     let priv := fun (n : Nat) => n == 7
-    getDocstring exBases (fun _ => false) owns hasDoc 2 7 = some 1
+    getDocstringOld exBases (fun _ => false) owns hasDoc 2 7 = some 1
+    ∧ overridesOld exBases (fun _ => false) owns 2 7 = some 1
+    ∧ getDocstring exBases (fun _ => false) priv owns hasDoc 2 7 = none
+    ∧ overrides exBases (fun _ => false) priv owns 2 7 = none
     ∧ PyMro.docSource (PyMro.withObject exBases) (mangledOwns priv owns 2) hasDoc 2 7 = none
-    ∧ overrides exBases (fun _ => false) owns 2 7 = some 1
     ∧ PyMro.superLookup (PyMro.withObject exBases) (mangledOwns priv owns 2) 2 7 = none := by
   decide
 
